@@ -23,7 +23,7 @@ def moveCastling (m : Nat) : Nat :=
   let p := (m >>> 15) &&& 0x3
   if p = 0 then 0 else if p = 1 then KING_CASTLING else QUEEN_CASTLING
 
-/-- `create_moveinfo` (types.cpp:28-37); `lastEp = 64` means NO_SQUARE; `clock` is a uint8 -/
+/-- `create_moveinfo` (types.cpp:28-37); `lastEp = 64` means NO_SQUARE; `clock` is a uint16 (bits 15..30) -/
 def mkMoveInfo (captured lastCastling lastEp : Nat) (isEp : Bool) (clock : Nat) : Nat :=
   if lastEp ≠ noSquare then
     (clock <<< 15) ||| ((if isEp then 1 else 0) <<< 14) ||| (1 <<< 13) ||| (lastEp <<< 7) ||| (lastCastling <<< 3) ||| captured
@@ -34,7 +34,7 @@ def miCaptured (mi : Nat) : Nat := mi &&& 0x7
 def miLastCastling (mi : Nat) : Nat := (mi >>> 3) &&& 0xF
 def miLastEp (mi : Nat) : Nat := if (mi >>> 13) &&& 1 = 1 then (mi >>> 7) &&& 0x3F else noSquare
 def miIsEp (mi : Nat) : Bool := (mi >>> 14) &&& 1 = 1
-def miClock (mi : Nat) : Nat := (mi >>> 15) &&& 0xFF
+def miClock (mi : Nat) : Nat := (mi >>> 15) &&& 0xFFFF
 
 /-- pins of movegen.cpp:204-229 -/
 def mkPin (sq kind ray : Nat) : Nat := (ray <<< 9) ||| (kind <<< 6) ||| sq
